@@ -17,6 +17,7 @@ import (
 	"github.com/istio-ecosystem/authservice/internal/server"
 	"github.com/istio-ecosystem/authservice/zzverif/ev"
 	"github.com/istio-ecosystem/authservice/zzverif/par"
+	"github.com/istio-ecosystem/authservice/zzverif/world"
 )
 
 // C08: first matching chain judges; every filter in it must allow; unmatched is denied.
@@ -36,6 +37,8 @@ type c08Case struct {
 	// Rules: "" no trigger rules | "all" rules under which the request path (/x) is triggered | "none" rules that
 	// exclude it (then the request is allowed whatever the chains say)
 	Rules string `json:"trigger_rules,omitempty"`
+	// Debug: evaluated with log_level all:debug
+	Debug bool `json:"debug_logging,omitempty"`
 }
 
 // countingStore counts store calls (an OIDC filter that is reached writes its login state).
@@ -158,6 +161,9 @@ func c08NewInstance(c c08Case) c08Instance {
 }
 
 func c08Impl(c c08Case) (code codes.Code, who byte, reached int64, msg string, err error) {
+	if c.Debug {
+		world.EnableDebugLogging()
+	}
 	inst := c08NewInstance(c)
 	for _, e := range c.Earlier {
 		c2 := c
@@ -244,7 +250,7 @@ func c08CheckOn(run *ev.Run, inst c08Instance, c c08Case) {
 }
 
 func c08Run(run *ev.Run) {
-	run.Rule = "every chain list of length 0..3 (thorough: filter sequences up to 3 per chain and length-4 lists over a reduced set) over match in {none, equality, prefix, equality with mixed-case header name, prefix on another header} x filter sequences over {allow-mock, deny-mock, real OIDC filter} x allow_unmatched x 6 header maps; one real ExtAuthZFilter.Check each, compared with a reference evaluator on status code, on which filter answered and on how many OIDC filters were reached (store writes); class = (chains, code, answering filter, headers)"
+	run.Rule = "every chain list of length 0..3 (thorough: filter sequences up to 3 per chain and length-4 lists over a reduced set) over match in {none, equality, prefix, equality with mixed-case header name, prefix on another header} x filter sequences over {allow-mock, deny-mock, real OIDC filter} x allow_unmatched x 6 header maps; one real ExtAuthZFilter.Check each, compared with a reference evaluator on status code, on which filter answered and on how many OIDC filters were reached (store writes); last, all lists of up to two chains once more with log_level all:debug (six requests on one long-lived filter, both orders); class = (chains, code, answering filter, headers)"
 	run.Assumptions = []string{"requests carry lower-case header names, as Envoy sends them", "empty filter lists and empty criteria are rejected by the loader and are not in the alphabet"}
 	matches := []string{"none", "eq", "prefix", "EQ", "prefix-u"}
 	var seqs []string
@@ -380,6 +386,37 @@ func c08Run(run *ev.Run) {
 	if int(lists) != total {
 		run.Cap(fmt.Sprintf("%d of %d chain lists", lists, total))
 	}
+	// once more with log_level all:debug (set up as cmd/main.go does) for all lists of up to two chains: what runs
+	// only at debug level must not change a verdict, neither of this request nor of the ones after it
+	world.EnableDebugLogging()
+	var dbgEvals int64
+	par.For(1+n+n*n, run.Expired, func(i int) {
+		var cl []c08Chain
+		switch {
+		case i == 0:
+		case i <= n:
+			cl = []c08Chain{chains[i-1]}
+		default:
+			cl = []c08Chain{chains[(i-1-n)/n], chains[(i-1-n)%n]}
+		}
+		for _, au := range []bool{false, true} {
+			for pass := 0; pass < 2; pass++ {
+				inst := c08NewInstance(c08Case{Chains: cl, AllowUnmatched: au, Debug: true})
+				var earlier []map[string]string
+				for k := range headers {
+					h := headers[k]
+					if pass == 1 {
+						h = headers[len(headers)-1-k]
+					}
+					c08CheckOn(run, inst, c08Case{Chains: cl, AllowUnmatched: au, Headers: h, Earlier: earlier, Debug: true})
+					earlier = append(earlier, h)
+					atomic.AddInt64(&dbgEvals, 1)
+				}
+			}
+		}
+	})
+	evals += dbgEvals
+	run.Extra["evaluations_with_debug_logging"] = dbgEvals
 	run.Evals, run.States, run.Transitions, run.Traces = evals, lists, evals, evals
 	run.Extra["chain_alphabet"] = n
 }
